@@ -1606,7 +1606,7 @@ impl UnifiedCommandExecutor {
                 handle_xgroup(&self.storage, db, &frames)
             }
             
-            ConsumerGroupCommand::XReadGroup { group, consumer, keys_and_ids, count, block: _block, noack: _noack } => {
+            ConsumerGroupCommand::XReadGroup { group, consumer, keys_and_ids, count, block: _block, noack } => {
                 use crate::storage::commands::consumer_groups::handle_xreadgroup;
                 let mut frames = vec![
                     RespFrame::from_string("XREADGROUP"),
@@ -1618,6 +1618,10 @@ impl UnifiedCommandExecutor {
                 if let Some(c) = count {
                     frames.push(RespFrame::from_string("COUNT"));
                     frames.push(RespFrame::from_string(c.to_string()));
+                }
+                
+                if noack {
+                    frames.push(RespFrame::from_string("NOACK"));
                 }
                 
                 frames.push(RespFrame::from_string("STREAMS"));
